@@ -6,7 +6,9 @@ E: a four-directory tree (src/ with the TU, src/sub/, inc1/, inc2/); the header 
    once; helper headers that include h.h themselves from another directory; the TU = every
    sequence of <= 2 (quick) / <= 3 (thorough) include directives (quote, angle, via helpers,
    computed) followed by probes of the marker macros; every ordered -I / -isystem search list
-   over inc1, inc2 passed as a real command line through config.load_database; -include on/off.
+   over inc1, inc2 passed as a real command line through config.load_database; -include on/off;
+   for two-directory search lists a companion platform analyses the same TU first with the list
+   reversed (shared parse trees: what this command resolves must not depend on it).
    Cases with a missing header are excluded (gcc rejects them; C18 owns them).
 S: history independence of the resolver: BFS over sequences of Platform.find_include_file
    calls (2 names x 4 directories x 2 forms) on one Platform; key = (found_incl, _skip_includes);
@@ -105,13 +107,21 @@ def observe(root, slist, forced):
     env.reset_compilers()
     env.capture.records.clear()
     try:
-        db = config.load_database(dbp, root)
+        dbs = {}
+        if len(slist) == 2:
+            # companion platform analysed FIRST in the same run: the same translation unit with the search list
+            # reversed.  The parse trees are shared between commands; what p resolves must not depend on it.
+            dbq = os.path.join(root, "dbq.json")
+            with open(dbq, "w") as f:
+                json.dump([{"file": "src/main.c", "directory": root, "arguments": ["/usr/bin/gcc"] + flags(root, slist[::-1], False) + ["-c", "src/main.c"]}], f)
+            dbs["q"] = config.load_database(dbq, root)
+        dbs["p"] = config.load_database(dbp, root)
         cb = CodeBase(root)
-        st = finder.find(root, cb, {"p": db})
+        st = finder.find(root, cb, dbs)
     except Exception as e:  # noqa
         return ("EXC", f"{type(e).__name__}: {e}")
     att = codebase.attribution(st, root, set(cb))
-    return {rel: sorted(ln for ln, ps in lines.items() if ps) for rel, lines in att.items()}
+    return {rel: sorted(ln for ln, ps in lines.items() if "p" in ps) for rel, lines in att.items() if not rel.startswith("db")}
 
 
 def judge(root, case):
